@@ -229,6 +229,56 @@ func propC02(j *Job) {
 			mixed = append(mixed, xferCase{Name: fmt.Sprintf("MX/%s/frags%d", mode.Name, nf), K: k, Spec: spec})
 		}
 	}
+	// several messages in progress at once, each of which fits the peer's receive buffer while
+	// their sum does not (with interleaving the scheduler spreads the link over all of them)
+	var multi []xferCase
+	for _, mode := range modes {
+		a, b := withBase(mode.A, 228, 0xFFFFFFFA, 4000), withBase(mode.B, 228, 50, 4000)
+		b.RecvBuf = 1500
+		var sts []streamSpec
+		for sid := uint16(1); sid <= 3; sid++ {
+			sts = append(sts, streamSpec{SID: sid, From: 0, Msgs: []msgSpec{{Size: 900, PPI: 53}, {Size: 40, PPI: 51}}})
+		}
+		multi = append(multi, xferCase{Name: fmt.Sprintf("MB/%s/3x900-rbuf1500", mode.Name), K: 0,
+			Spec: &xferSpec{A: a, B: b, Streams: sts, Interleave: true}})
+	}
+	for _, c := range multi {
+		spec := c.Spec
+		full := false
+		spec.BeforeClose = func(m *Sim, r *xferResult) {
+			for i := 0; i < 2; i++ {
+				if m.As[i] != nil {
+					r.BufAtDrain[i] = m.As[i].BufferedAmount()
+				}
+			}
+			// the receiver's window is closed and every message it holds is incomplete
+			b := m.As[1]
+			if b == nil {
+				return
+			}
+			b.lock.RLock()
+			credit := b.getMyReceiverWindowCredit()
+			readable := false
+			for _, s := range b.streams {
+				if s.reassemblyQueue.isReadable() {
+					readable = true
+				}
+			}
+			b.lock.RUnlock()
+			full = !r.Drained && credit == 0 && !readable
+		}
+		inner := deliveryFinal(spec, true, monOpts{})
+		spec.Final = func(m *Sim, x *Exec, r *xferResult) {
+			if full {
+				generalVerdicts(m, x, false)
+				m.Failf("stall.window-full-of-fragments", "not drained: the receiver's buffer (%d bytes) is full of fragments of %d messages none of which is complete, its window is 0 and every further fragment is dropped; buffered A=%d, delivered %s", spec.B.RecvBuf, len(spec.Streams), bufAmt(m.As[0]), deliverySummary(spec, r))
+				return
+			}
+			inner(m, x, r)
+		}
+		res := &xferResult{}
+		j.Explore(c.Name, xferScenario(spec, res), Budget{K: c.K, D: c.D}, nil)
+	}
 	runCases(j, mixed, func(spec *xferSpec) func(m *Sim, x *Exec, r *xferResult) {
 		return func(m *Sim, x *Exec, r *xferResult) {
 			generalVerdicts(m, x, false)
